@@ -536,7 +536,8 @@ func (b *assignmentBuilder) sliceToSlice(lhs, rhs bmodel.Node) (a gmodel.Assignm
 	}
 
 	if types.AssignableTo(rhsElem, lhsElem) {
-		if util.IsBasicType(rhsElem) {
+		if util.IsBasicType(rhsElem) && types.Identical(lhsElem, rhsElem) {
+			// copy() needs identical element types; []string into []interface{} takes the loop.
 			a = gmodel.SliceAssignment{
 				LHS: lhs.AssignExpr(),
 				RHS: rhs.AssignExpr(),
